@@ -374,6 +374,14 @@ def read_cases(draw):
             mv = draw(st.sampled_from([0, 1])) if draw(st.booleans()) else draw(st.sampled_from([d for d in data if 0 <= d <= 1] or [1]))
         else:
             mv = draw(st.sampled_from(data + [-9999, 77])) if data else -9999
+    if mv is not None and data and draw(st.integers(0, 2)) == 0:
+        # a cell that is almost, but not, the MissingValue stays an ordinary cell (integers: the neighbours of a large value)
+        if integral:
+            mv = draw(st.sampled_from([1000000, 250000]))
+            data = [mv + draw(st.sampled_from([-7, -1, 1, 3])) if k % 2 else x for k, x in enumerate(data)] if dt not in ("Fuzzy",) else data
+        elif dtype == "f8":
+            data = list(data)
+            data[draw(st.integers(0, n - 1))] = mv * (1 + 2e-6) if mv else 1e-9
     case = {"dims": dims, "var": {"name": "v", "dtype": dtype, "data": data, "mask": mask, "fill": fill}, "datatype": dt, "missing": mv}
     if draw(st.integers(0, 3)) == 0:
         case["earlier"] = True
